@@ -1,5 +1,5 @@
 import Adlt.Dlt.Enc
-import Adlt.Dlt.StreamSerial
+import Adlt.Dlt.CleanB
 import Adlt.Gen.Consts
 /-! # C01 — DLT framing: complete, faithful recovery of messages between garbage
 
@@ -64,6 +64,13 @@ theorem C01_serial_stream (i0 : Nat) (items : List Item) (hw : allWf true items 
   · rw [h4]; simp only []; omega
   · rw [h4]; simp only []; omega
   · simpa using h5
+
+/-- the hypothesis the oracle evaluates on every generated stream (`Spec.inRange`: all messages well-formed and the linear
+    marker scan `markerFree` over absolute offsets passes) implies the hypotheses of the two stream theorems -/
+theorem C01_oracle_hypothesis (serial : Bool) (items : List Item) (h : Spec.inRange serial items = true) :
+    allWf serial items = true ∧ Clean serial items := by
+  simp only [Spec.inRange, Bool.and_eq_true] at h
+  exact ⟨h.1, markerFree_clean serial items h.2⟩
 
 /-- non-vacuity: garbage, a minimal message, garbage containing the bytes `D L T` but no complete marker -/
 example : Clean false [.g [1, 2, 3], .m { sh := [1,0,0,0, 2,0,0,0, 65,66,67,68], htyp := 0x20, mcnt := 8, add := [], payload := [] },
